@@ -94,13 +94,13 @@ def eval_bool(e, atom: Callable):
 
 
 def simulate(cfg, start, stop: Callable, test_oracle: Callable, raise_oracle: Optional[Callable] = None,
-             event_of: Optional[Callable] = None, limit: int = 4000) -> list:
+             event_of: Optional[Callable] = None, limit: int = 4000, env0: Optional[dict] = None) -> list:
     """Walk from `start` until stop(node) is true.  test_oracle(node) -> True/False/None for
     test/while nodes; raise_oracle(node) -> None (does not raise) or an exception kind to follow
     (the node's edge labelled with that kind, or 'e').  event_of(node) -> str|None records events.
     Unknown conditions explore both branches; un-modelled exceptional edges are not followed."""
     outs = []
-    stack = [(start, (), (), ())]
+    stack = [(start, (), (), tuple(sorted((env0 or {}).items())))]
     seen = set()
     steps = 0
     while stack:
